@@ -27,7 +27,8 @@ EVENT_POOL = ['a', 'true', '1', 'x: y', 'a b', 'é', '#e', "e'v", '- e', 'e v', 
 CODE_POOL = ["x = 'a: b'", "x = '#c'  # comment", 'x = "q"', "x = {'b': 1}", "x = 1 | 2", "x = 3 * 4",
              "if True:\n    x = 1\nelse:\n    x = 2", "x = 'é'", "x = '''a\nb'''", "x = 'it''s'",
              "x = [1,\n     2]", "x = 'yes'", "x = 1e3", "x = '- z'", "x = '%d' % 3", "x = 'a' if 1 else 'b'",
-             "x = '\\\\n'", "x = \"{}\".format('~')", "pass", "x = None"]
+             "x = '\\\\n'", "x = \"{}\".format('~')", "pass", "x = None",
+             "x = 1\n    \ny = 2", "x = '''a\n  \nb'''", "if True:\n    x = 1\n\t\n    y = 2"]
 EXPR_POOL = ["'a: b' != ''", "not ({} or [])", "1e3 > 0", "True", "1", "'#' in '#c'", "'é' == 'é' or False",
              "(1,\n 2) != ()", "'yes' != 'no'", "[x for x in 'ab'] != []", "'- z' > ''", "not None", "0 == 0  # zero",
              "'\"q\"' != \"'\"", "2 | 1", "1 if True else 0"]
@@ -39,6 +40,8 @@ LEVELS = {
         {'name': 'L2-code-N4-M1', 'mode': 'code', 'N': 4, 'M': 1, 'K': 1, 'offsets': 2, 'budget_s': 100},
         {'name': 'L2b-code-N3-M2', 'mode': 'code', 'N': 3, 'M': 2, 'K': 1, 'offsets': 4, 'budget_s': 60},
         {'name': 'L3-dict-N3-M2', 'mode': 'dict', 'N': 3, 'M': 2, 'budget_s': 40},
+        {'name': 'L5-code-N3-M3-interleaved', 'mode': 'code', 'N': 3, 'M': 3, 'K': 1, 'offsets': 2, 'kinds': 'bco',
+         'nevents': 1, 'interleave': 1, 'targets': 'self_none', 'budget_s': 60},
         {'name': 'L4-names-N3-M1-alloff', 'mode': 'names', 'N': 3, 'M': 1, 'K': 1, 'offsets': 'all', 'budget_s': 60},
     ],
     'thorough': [
@@ -60,14 +63,16 @@ OUTSIDE = ['arbitrary YAML text / symbolic strings through ruamel (the text laye
 
 
 def shards(level):
-    return cg.split_shards(cg.skeletons(level['N'], ALL), level['M'])
+    kinds = ALL[:3] if level.get('kinds') == 'bco' else ALL
+    return cg.split_shards(cg.skeletons(level['N'], kinds), level['M'], nevents=level.get('nevents', 2))
 
 
 def expand(job, level):
     if 'chart' in job:
         yield job['chart']
         return
-    yield from cg.charts(job['skel'], level['M'], nevents=2, targets='free', fix=job.get('fix'))
+    yield from cg.charts(job['skel'], level['M'], nevents=level.get('nevents', 2), targets=level.get('targets', 'free'),
+                         fix=job.get('fix'))
 
 
 def canary_job():
@@ -242,8 +247,11 @@ def code_layer(g, chart, level, canary=False):
             return rot(CODE_POOL, off, ident + 5) if (ident + off) % 2 else None
     key = ('c11c', off)
     if key not in g.cache:
+        m_ = len(chart['tr'])
+        # declaration order of transitions: canonical, or interleaved (sources A, B, A) when the level asks for it
+        tro = ([0] + list(range(2, m_)) + [1]) if (level.get('interleave') and m_ >= 3) else None
         sc, trs, cm = cg.build(chart, 'id', code, name=rot(NAME_POOL, off, 0), preamble=rot(CODE_POOL, off, 3),
-                               priorities=[rot(PRIO_POOL, off, t, 3) for t in range(len(chart['tr']))])
+                               priorities=[rot(PRIO_POOL, off, t, 3) for t in range(m_)], tr_order=tro)
         sc.description = rot(DESC_POOL, off, 0, 2)
         for i in range(cm.n):
             st = sc.state_for(cm.names[i])
